@@ -20,7 +20,7 @@ import (
 	"verifharness/sys"
 )
 
-func sysNormTag(p []byte) []byte { return []byte(strings.ReplaceAll(string(p), "7365743a", "73756d3a")) }
+func sysNormTag(p []byte) []byte { return sys.NormTag(p) }
 
 func sysNonEmpty(r *sys.Result) string {
 	var p []string
